@@ -142,10 +142,14 @@ class Api:
         return k(None, self.own_inc(st, a[0], -1))
 
     def f_Py_XINCREF(self, a, st, k):
-        return self.cx.branch(st, a[0] != NULL, lambda s: k(None, self.own_inc(s, a[0])), lambda s: k(None, s))
+        if st.own is None:
+            return k(None, st)
+        return k(None, st.with_own(z3.If(a[0] != NULL, z3.Store(st.own, a[0], st.own[a[0]] + 1), st.own)))
 
     def f_Py_XDECREF(self, a, st, k):
-        return self.cx.branch(st, a[0] != NULL, lambda s: k(None, self.own_inc(s, a[0], -1)), lambda s: k(None, s))
+        if st.own is None:
+            return k(None, st)
+        return k(None, st.with_own(z3.If(a[0] != NULL, z3.Store(st.own, a[0], st.own[a[0]] - 1), st.own)))
 
     def f_Py_NewRef(self, a, st, k):
         st = self.nonnull(st, a[0], "Py_NewRef")
@@ -446,3 +450,71 @@ def _dict_size(self, a, st, k):
 
 
 Api.f_PyDict_Size = _dict_size
+
+
+# ---- dicts and lists (mutable Python-visible state) ----------------------------------------------------------
+DICTMAP = z3.ArraySort(Obj, z3.ArraySort(Obj, Obj))        # dict object -> (key -> value or NULL)
+
+
+def dict_arr(st):
+    return st.mem.get("@dict", z3.Const("dict0", DICTMAP))
+
+
+def list_len_arr(st):
+    return st.mem.get("@listlen", z3.Const("listlen0", z3.ArraySort(Obj, INT)))
+
+
+def _dict_getitem(self, a, st, k):
+    """PyDict_GetItem: borrowed reference or NULL; errors of __hash__/__eq__ are suppressed (no exception is left set).
+    For str keys (the only ones ctraits stores) no Python code runs."""
+    d, key = a
+    st = self.nonnull(st, d, "PyDict_GetItem")
+    st = self.nonnull(st, key, "PyDict_GetItem(key)")
+    return k(dict_arr(st)[d][key], st.log(("dict-get", d, key)))
+
+
+def _dict_setitem(self, a, st, k):
+    """PyDict_SetItem: does not steal; on success dict[key] = value.  Fails (-1, exception set) only when hashing the key
+    fails, which cannot happen for exact str keys (A-ALLOC: no memory errors)."""
+    d, key, v = a
+    st = self.nonnull(st, d, "PyDict_SetItem")
+    st = self.nonnull(st, key, "PyDict_SetItem(key)")
+    st = self.nonnull(st, v, "PyDict_SetItem(value)")
+    arr = dict_arr(st)
+    ok = st.with_mem("@dict", z3.Store(arr, d, z3.Store(arr[d], key, v))).log(("dict-set", d, key, v))
+    out = k(z3.IntVal(0), ok)
+    e = self.cx.fresh("exc", INT)
+    bad = st.assume(z3.Not(is_exact(key, "PyUnicode_Type")), e >= 1).with_exc(e)
+    if self.cx.feasible(bad):
+        out += k(z3.IntVal(-1), bad)
+    return out
+
+
+def _dict_delitem(self, a, st, k):
+    d, key = a
+    st = self.nonnull(st, d, "PyDict_DelItem")
+    arr = dict_arr(st)
+    return self.cx.branch(
+        st, arr[d][key] != NULL,
+        lambda s: k(z3.IntVal(0), s.with_mem("@dict", z3.Store(arr, d, z3.Store(arr[d], key, NULL))).log(("dict-del", d, key))),
+        lambda s: k(z3.IntVal(-1), s.with_exc(EXC["KeyError"])))
+
+
+def _dict_new(self, a, st, k):
+    r, st2 = self.fresh_obj("newdict", st)
+    arr = dict_arr(st2)
+    empty = z3.K(Obj, NULL)
+    return k(r, st2.with_mem("@dict", z3.Store(arr, r, empty)).assume(is_exact(r, "PyDict_Type")))
+
+
+def _list_get_size(self, a, st, k):
+    st = self.nonnull(st, a[0], "PyList_GET_SIZE")
+    n = list_len_arr(st)[a[0]]
+    return k(n, st.assume(n >= 0))
+
+
+Api.f_PyDict_GetItem = _dict_getitem
+Api.f_PyDict_SetItem = _dict_setitem
+Api.f_PyDict_DelItem = _dict_delitem
+Api.f_PyDict_New = _dict_new
+Api.f_PyList_GET_SIZE = _list_get_size
